@@ -407,6 +407,43 @@ fn hash_of<T: Hash>(t: &T) -> u64 {
     h.finish()
 }
 
+/// Owned arrays that survived a caught panic in caller code (or a fault-free operation): clone() must be an
+/// equal array and the conversions must yield num_cols*num_rows cells in row-major order.
+fn run_survivors(c: usize, r: usize, ctx: &mut Ctx) {
+    super::c11::for_each_survivor(c, r, ctx, &mut |t: TooDee<Tracked>, what: &str, cs: &mut crate::engine::Case| {
+        let (nc, nr) = t.size();
+        let len = t.data().len();
+        if nc.checked_mul(nr).map_or(true, |a| a > 64) || len > 64 {
+            std::mem::forget(t);
+            return;
+        }
+        let area = nc * nr;
+        let lab = |s: &[Tracked]| -> Vec<u32> { s.iter().map(|e| e.label).collect() };
+        match guarded(|| t.clone()) {
+            Err(m) => cs.fail("conv:clone", format!("{}: clone() panicked: {}", what, m)),
+            Ok(cl) => {
+                if cl.size() != (nc, nr) || lab(cl.data()) != lab(t.data()) || cl != t {
+                    cs.fail("conv:clone", format!("{}: clone() has size {:?} and {} cells, the original ({},{}) and {}", what, cl.size(), cl.data().len(), nc, nr, len));
+                }
+                let expect: Option<Vec<u32>> = if area == len { Some(lab(t.data())) } else { None };
+                let v: Vec<Tracked> = cl.into();
+                if v.len() != area || expect.as_ref().map_or(false, |e| *e != lab(&v)) {
+                    cs.fail("conv:vec", format!("{}: Vec::from of a clone of the ({},{}) array yields {} cells", what, nc, nr, v.len()));
+                }
+            }
+        }
+        if area != len {
+            cs.fail("conv:vec", format!("{}: the ({},{}) array converts into {} cells", what, nc, nr, len));
+            std::mem::forget(t);
+            return;
+        }
+        let n = t.into_iter().count();
+        if n != area {
+            cs.fail("conv:into_iter", format!("{}: into_iter() of the ({},{}) array yields {} cells", what, nc, nr, n));
+        }
+    });
+}
+
 fn run_eq_hash(ctx: &mut Ctx) {
     // all arrays with <= 4 cells over {0,1}
     let mut all: Vec<(usize, usize, Vec<u32>)> = Vec::new();
@@ -497,6 +534,9 @@ impl Prop for C20P {
             if c <= 2 && r <= 2 {
                 v.push(format!("conv Z {}x{}", c, r));
             }
+            if c > 0 && c <= 3 && r <= 3 {
+                v.push(format!("survivors {}x{}", c, r));
+            }
         }
         v
     }
@@ -509,6 +549,10 @@ impl Prop for C20P {
                 "T" => run_new_init::<Tracked>(n, ctx),
                 _ => run_new_init::<crate::engine::ledger::TrackedZst>(n, ctx),
             },
+            "survivors" => {
+                let (c, r) = p[1].split_once('x').unwrap();
+                run_survivors(c.parse().unwrap(), r.parse().unwrap(), ctx)
+            }
             "zstbig" => run_zst_big(ctx),
             "eqhash" => run_eq_hash(ctx),
             "fromvec" => {
@@ -536,6 +580,7 @@ impl Prop for C20P {
          from_vec (exact / spare capacity) and from_box for all pairs x every buffer length 0..=N^2+1: accepted iff zero rule, no overflow and c*r == len, then the buffer's cells in row-major order; TooDeeView::new / TooDeeViewMut::new: accepted iff zero rule, no overflow, c*r <= len, cells by address; default / with_capacity => (0,0). \
          Conversions for every shape: Vec::from, Box::from, into_iter() with every (front, back) split and the rest through rev / nth / nth_back / rev+skip / skip+step_by / rev+step_by, AsRef<[T]>, AsRef<Vec<T>>, AsMut, clone() and clone_from() equal and independent, TooDee::from(view | view_mut | view-from-view_mut) for every window; drop ledger balanced. \
          == / Hash: all arrays with <= 4 cells over {0,1} (1x4, 2x2, 4x1 share a length), all pairs: equal iff same dimensions and cells, equal => same DefaultHasher digest also across capacities. \
+         Arrays over {0.0, NaN}: equal exactly when dimensions agree and cells are pairwise equal, also when both operands are the same object. Owned arrays of owning elements (up to 3x3) that survive an operation in which the k-th call into caller code panicked and was caught (every operation instance and every k): clone() equal, Vec::from / into_iter() yield num_cols*num_rows cells in row-major order. \
          A case is one constructor call / conversion bundle / comparison row; non-trivial = accepted; distinct by arguments."
             .into()
     }
